@@ -66,6 +66,37 @@ fn rule_unprovoked_conflict(ctx: &Ctx, out: &mut Vec<Violation>) {
     }
 }
 
+/// C07.starved: in a plan whose requests share one real client connection (tag "conn") and in which
+/// no stall is injected, a request that is not a blocking Pull is answered without the virtual clock
+/// moving: nothing on its path waits for a timer, so if a second of virtual time passes before the
+/// answer, the request waited for other requests of its connection to end (or was never served).
+fn rule_conn_starved(ctx: &Ctx, out: &mut Vec<Violation>) {
+    if !ctx.plan.has_tag("conn") || ctx.plan.knobs.stall_permille > 0 || ctx.plan.knobs.long_stall_permille > 0 {
+        return;
+    }
+    let m = ctx.m;
+    let end_t = m.calls.values().filter_map(|c| c.ret_t).max().unwrap_or(0);
+    for c in m.calls.values() {
+        let what = match &c.req {
+            Req::GetSub { .. } => "GetSubscription",
+            Req::Ack { .. } => "Acknowledge",
+            Req::Pull { immediate: true, .. } => "Pull(return_immediately)",
+            _ => continue,
+        };
+        if c.abandon_at > 0 {
+            continue;
+        }
+        let waited = match c.ret_t {
+            Some(t) => t.saturating_sub(c.inv_t),
+            None => end_t.saturating_sub(c.inv_t).max(1_000_001),
+        };
+        if waited > 1_000_000 {
+            let parked = m.calls.values().filter(|o| matches!(o.req, Req::Pull { immediate: false, .. }) && o.inv_seq < c.inv_seq && o.ret_seq.map(|r| r > c.inv_seq).unwrap_or(true)).count();
+            out.push(v("C07.starved", format!("conn_starved:{what}"), format!("{} (call {}) on a connection with {} parked Pulls was {} after {} virtual us", what, c.id, parked, if c.ret_t.is_some() { "answered only" } else { "still unanswered" }, waited)));
+        }
+    }
+}
+
 /// C05.refused / C02.refused: an Acknowledge or ModifyAckDeadline addressed to a subscription that
 /// exists (created once, never the target of a DeleteSubscription, its request well-formed) is
 /// served: it is not answered with an error status.
@@ -129,6 +160,7 @@ pub fn evaluate_more(ctx: &Ctx, out: &mut Vec<Violation>) {
     rule_status(ctx, out);
     rule_unprovoked_conflict(ctx, out);
     rule_refused(ctx, out);
+    rule_conn_starved(ctx, out);
     rule_residue(ctx, out);
     rule_c14(ctx, out);
     rule_c13(ctx, out);
